@@ -339,7 +339,10 @@ class Check:
         if bad:
             self.broken.append("grep-gate: " + "; ".join(bad[:5]))
         target = prop_file.replace(".v", ".vo")
-        ok, lg = coq_make([target])
+        # the model files too: extraction loads every Model/*.vo, and a stale one (left by a run on a tree whose regexes differed)
+        # would make the extraction fail with 'inconsistent assumptions' although nothing is wrong with the tree being checked
+        model_vos = sorted("Model/" + p.name + "o" for p in (COQ / "Model").glob("*.v")) if extract else []
+        ok, lg = coq_make([target] + model_vos)
         if not ok:
             log(lg[-3000:])
             m = re.findall(r'File "\./([^"]+)", line (\d+)', lg)
